@@ -260,7 +260,12 @@ def network_simplex(
             return Result(None, float("inf"), iterations, total_arcs, Status.INFEASIBLE)
 
     total_cost = sum(flow[i] * cost[i] for i in range(m))
-    flow_dict = {(source[i], target[i]): flow[i] for i in range(m) if flow[i] > 0}
+    # Parallel arcs share a key: report their combined flow (as min_cost_flow does)
+    flow_dict: dict[tuple[int, int], int] = {}
+    for i in range(m):
+        if flow[i] > 0:
+            key = (source[i], target[i])
+            flow_dict[key] = flow_dict.get(key, 0) + flow[i]
 
     return Result(flow_dict, total_cost, iterations, total_arcs)
 
